@@ -766,6 +766,11 @@ def simplifier(rec):
     return generic_simplifier(rec)
 
 
+def evidence_extra(total):
+    pairs = sorted(total["pairs"])
+    return {"partial_sweep_ranges_covered": len(pairs), "partial_sweep_ranges_sample": [list(p) for p in pairs[:12]]}
+
+
 def run_one(prop, seed, faults, want_events=False):
     run, records, viol, cfg = generate_and_run(prop, seed, faults, keep_events=want_events)
     nontrivial = bool(sum(run.seams.fired.values())) or any(
